@@ -1073,7 +1073,27 @@ func (f *Frame) backEdge(li *loopInfo, from *ssa.BasicBlock, reach string, st *S
 	if li.measure != "" && f.fc != nil {
 		d := f.fc.LoopDec[li.ord]
 		nv := f.evalTerm(f.env(st), d.Expr)
-		f.addObl(tag+"#decreases", "", reach, and(e.ilt(nv, li.measure), e.ile(e.idxLit(0), li.measure)), nil, nil, "")
+		if d.Kind == "increases" {
+			goal := e.ilt(li.measure, nv)
+			if d.When != nil {
+				func() {
+					defer func() {
+						if r := recover(); r != nil {
+							if ee, ok := r.(evalError); ok {
+								e.fail(f, fmt.Errorf("increases: %s", ee.msg))
+								return
+							}
+							panic(r)
+						}
+					}()
+					u, _ := f.env(st).evalBool(d.When).qf()
+					goal = or(u, goal)
+				}()
+			}
+			f.addObl(tag+"#progress", "", reach, goal, nil, nil, "")
+		} else {
+			f.addObl(tag+"#decreases", "", reach, and(e.ilt(nv, li.measure), e.ile(e.idxLit(0), li.measure)), nil, nil, "")
+		}
 	}
 	if li.hasMod {
 		f.frameObligations(tag+"#frame", reach, li.headSt, st, li.items, li.preSt.Alloc)
